@@ -336,6 +336,9 @@ class FSM(addons.AddonPersistence, block.SBlock):
         """Cleanup."""
         self._stop_timer()
         self._timers_enabled = False    # events may still arrive during the cleanup
+        # The simulator has saved the state before stopping the blocks. Without the timer
+        # the state is not complete any more; such events must not overwrite the saved one.
+        self.persistent = False
         super().stop()
 
     def _set_timer(self, duration: float, timed_event: str|block.EventType) -> None:
